@@ -525,6 +525,7 @@ func runToPrim(r *engine.Run) {
 			}
 		}
 	}
+	runToPrimDyn(r, h, plainIdx)
 }
 
 // ---- conditional -----------------------------------------------------------------
